@@ -149,7 +149,7 @@ def rule_cb2(A: Analysis, rep):
     rep.check(kws.get("identifier") == "%s.task.identifier" % F.lt and kws.get("task") == "%s.task" % F.lt, "CB2", "combine op carries its task", call, "", "CombineOutputs(%s)" % kws, deep=False)
     op = A.kw(call, "output_path")
     pd = A.preceding_def(cn.ast, op.id) if isinstance(op, ast.Name) else None
-    rep.check(pd is not None and norm(pd) == "%s.task.get_output_path(self._ctx)" % F.lt, "CB2", "combine directory = the task's output path", call, "", "output_path is `%s`" % (norm(pd) if pd is not None else "?"))
+    rep.check(pd is not None and A.xtext(pd, fi, stop=[F.lt]) == "%s.task.get_output_path(self._ctx)" % F.lt, "CB2", "combine directory = the task's output path", call, "", "output_path is `%s`" % (norm(pd) if pd is not None else "?"))
     init = A.fn("execution.ops.combine_outputs.CombineOutputs.__init__")
     st = {norm(s.targets[0]): norm(s.value) for s in walk_local(init.node) if isinstance(s, ast.Assign)}
     rep.check(st.get("self._deps_output_paths") == "deps_output_paths" and st.get("self._output_path") == "output_path", "CB2", "fields", init.node, "", "CombineOutputs.__init__ stores %s" % st, deep=False)
